@@ -104,6 +104,331 @@ theorem quoteUnit_no_control (c : Nat) (ph : Bool) (next : Bool) : ∀ u ∈ quo
     · exact absurd (by simp [hlt]) hcond
     · omega
 
+-- ------------------------------------------------------------------ the whole-value round trip
+theorem skipWs_cons (c : Nat) (cs : List Nat) (h : isWs c = false) : skipWs (c :: cs) = c :: cs := by
+  simp [skipWs, h]
+
+theorem takeWhile_app (p : Nat → Bool) (t rest : List Nat) (ht : ∀ x ∈ t, p x = true) (hr : ∀ c r, rest = c :: r → p c = false) :
+    (t ++ rest).takeWhile p = t ∧ (t ++ rest).dropWhile p = rest := by
+  induction t with
+  | nil =>
+    cases rest with
+    | nil => simp
+    | cons c r => simp [hr c r rfl]
+  | cons a t ih =>
+    have ha := ht a (by simp)
+    obtain ⟨h1, h2⟩ := ih (fun x hx => ht x (by simp [hx]))
+    simp [ha, h1, h2]
+
+theorem validNumber_head (c : Nat) (cs : List Nat) (h : validNumber (c :: cs) = true) : c = 0x2D ∨ isDigit c = true := by
+  by_cases hm : c = 0x2D
+  · exact Or.inl hm
+  by_cases hd : isDigit c = true
+  · exact Or.inr hd
+  exfalso
+  have h0 : ¬ c = 0x30 := by intro h0; subst h0; simp [isDigit] at hd
+  have h19 : ¬(0x31 ≤ c ∧ c ≤ 0x39) := by intro ⟨a, b⟩; simp [isDigit] at hd; omega
+  unfold validNumber at h
+  simp [hm] at h
+  rw [if_neg h19] at h
+  simp at h
+
+theorem validNumber_ne_nil (t : List Nat) (h : validNumber t = true) : t ≠ [] := by
+  intro hn; subst hn; simp [validNumber] at h
+
+-- ------------------------------------------------------------------ sizes, well-formedness
+mutual
+  def szV : JV → Nat
+    | .arr xs => 1 + szL xs
+    | .obj o => 1 + szO o
+    | _ => 1
+  def szL : JL → Nat
+    | .nil => 0
+    | .cons v t => 1 + szV v + szL t
+  def szO : JO → Nat
+    | .nil => 0
+    | .cons _ v t => 1 + szV v + szO t
+end
+
+def keysO : JO → List (List Nat)
+  | .nil => []
+  | .cons k _ t => k :: keysO t
+
+def appO : JO → JO → JO
+  | .nil, b => b
+  | .cons k v t, b => .cons k v (appO t b)
+
+mutual
+  /-- the values JSON.stringify can produce: valid number tokens, 16-bit code units, distinct keys -/
+  def wfV : JV → Prop
+    | .null => True
+    | .bool _ => True
+    | .num t => validNumber t = true ∧ ∀ c ∈ t, isNumChar c = true
+    | .str s => ∀ c ∈ s, c < 65536
+    | .arr xs => wfL xs
+    | .obj o => wfO o ∧ (keysO o).Nodup
+  def wfL : JL → Prop
+    | .nil => True
+    | .cons v t => wfV v ∧ wfL t
+  def wfO : JO → Prop
+    | .nil => True
+    | .cons k v t => (∀ c ∈ k, c < 65536) ∧ wfV v ∧ wfO t
+end
+
+theorem objSet_fresh : ∀ (acc : JO) (k : List Nat) (v : JV), k ∉ keysO acc → objSet k v acc = appO acc (.cons k v .nil)
+  | .nil, _, _, _ => rfl
+  | .cons k2 v2 t, k, v, h => by
+    simp only [keysO, List.mem_cons, not_or] at h
+    have hne : (k2 == k) = false := by
+      have : k2 ≠ k := fun e => h.1 e.symm
+      simpa using this
+    simp [objSet, hne, appO, objSet_fresh t k v h.2]
+
+theorem appO_assoc : ∀ (a : JO) (k : List Nat) (v : JV) (t : JO), appO (appO a (.cons k v .nil)) t = appO a (.cons k v t)
+  | .nil, _, _, _ => rfl
+  | .cons k2 v2 t2, k, v, t => by simp [appO, appO_assoc t2 k v t]
+
+theorem keysO_appO : ∀ (a b : JO), keysO (appO a b) = keysO a ++ keysO b
+  | .nil, _ => rfl
+  | .cons k v t, b => by simp [appO, keysO, keysO_appO t b]
+
+theorem quoteUnit_ne_nil (ph : Bool) (c : Nat) (nl : Bool) : 1 ≤ (quoteUnit ph c nl).length := by
+  unfold quoteUnit
+  repeat (first | split | simp)
+
+theorem quoteBody_cons (ph : Bool) (c : Nat) (cs : List Nat) :
+    ∃ nl, quoteBody ph (c :: cs) = quoteUnit ph c nl ++ quoteBody (isHigh c && nl) cs := by
+  cases cs with
+  | nil => exact ⟨false, by simp [quoteBody]⟩
+  | cons n r => exact ⟨isLow n, by simp [quoteBody]⟩
+
+theorem quoteBody_length (s : List Nat) : ∀ ph, s.length ≤ (quoteBody ph s).length := by
+  induction s with
+  | nil => intro ph; simp [quoteBody]
+  | cons c cs ih =>
+    intro ph
+    obtain ⟨nl, h⟩ := quoteBody_cons ph c cs
+    rw [h]
+    simp only [List.length_append, List.length_cons]
+    have h1 := quoteUnit_ne_nil ph c nl
+    have h2 := ih (isHigh c && nl)
+    omega
+
+/-- parsing a quoted string followed by anything -/
+theorem parse_quote (s rest : List Nat) (hs : ∀ c ∈ s, c < 65536) :
+    parseStrBody ((quoteBody false s ++ 0x22 :: rest).length + 1) (quoteBody false s ++ 0x22 :: rest) = some (s, rest) := by
+  apply string_roundtrip s false rest _ hs
+  have := quoteBody_length s false
+  simp only [List.length_append, List.length_cons]
+  omega
+
+def restOk (rest : List Nat) : Prop := ∀ c r, rest = c :: r → isNumChar c = false
+
+def headOk (l : List Nat) : Prop := ∃ c cs, l = c :: cs ∧ isWs c = false ∧ c ≠ 0x5D ∧ c ≠ 0x7D ∧ c ≠ 0x22
+
+theorem digit_facts (c : Nat) (h : c = 0x2D ∨ isDigit c = true) :
+    isWs c = false ∧ (c == 0x22) = false ∧ (c == 0x5B) = false ∧ (c == 0x7B) = false ∧ (c == 0x74) = false ∧ (c == 0x66) = false ∧
+    (c == 0x6E) = false ∧ c ≠ 0x5D ∧ c ≠ 0x7D ∧ (c == 0x2D || isDigit c) = true := by
+  rcases h with h | h
+  · subst h; decide
+  · have : 0x30 ≤ c ∧ c ≤ 0x39 := by simpa [isDigit] using h
+    refine ⟨?_, ?_, ?_, ?_, ?_, ?_, ?_, ?_, ?_, ?_⟩ <;> simp [isWs, h] <;> omega
+
+theorem stringify_head (v : JV) (h : wfV v) : (∃ c cs, stringify v = c :: cs ∧ isWs c = false ∧ c ≠ 0x5D ∧ c ≠ 0x7D) := by
+  cases v with
+  | null => exact ⟨_, _, rfl, by decide, by decide, by decide⟩
+  | bool b => cases b <;> exact ⟨_, _, rfl, by decide, by decide, by decide⟩
+  | num t =>
+    obtain ⟨hv, _⟩ := h
+    cases t with
+    | nil => exact absurd rfl (validNumber_ne_nil _ hv)
+    | cons c cs =>
+      have f := digit_facts c (validNumber_head c cs hv)
+      exact ⟨c, cs, rfl, f.1, f.2.2.2.2.2.2.2.1, f.2.2.2.2.2.2.2.2.1⟩
+  | str s => exact ⟨0x22, _, rfl, by decide, by decide, by decide⟩
+  | arr xs => exact ⟨0x5B, _, rfl, by decide, by decide, by decide⟩
+  | obj o => exact ⟨0x7B, _, rfl, by decide, by decide, by decide⟩
+
+theorem restOk_cons (c : Nat) (r : List Nat) (h : isNumChar c = false) : restOk (c :: r) := by
+  intro c2 r2 e; cases e; exact h
+
+theorem stringifyL_cons (v : JV) (t : JL) : stringifyL (.cons v t) = match t with | .nil => stringify v | .cons _ _ => stringify v ++ 0x2C :: stringifyL t := by
+  cases t <;> simp [stringifyL]
+
+theorem stringifyO_cons (k : List Nat) (v : JV) (t : JO) :
+    stringifyO (.cons k v t) = match t with | .nil => quote k ++ 0x3A :: stringify v | .cons _ _ _ => quote k ++ 0x3A :: stringify v ++ 0x2C :: stringifyO t := by
+  cases t <;> simp [stringifyO]
+
+mutual
+  theorem rtV : ∀ (v : JV) (rest : List Nat) (fuel : Nat), wfV v → restOk rest → szV v ≤ fuel →
+      parseValue fuel (stringify v ++ rest) = some (v, rest)
+    | .null, rest, fuel, _, _, hf => by
+      cases fuel with
+      | zero => simp [szV] at hf
+      | succ f => simp [parseValue, stringify, skipWs, isWs]
+    | .bool b, rest, fuel, _, _, hf => by
+      cases fuel with
+      | zero => simp [szV] at hf
+      | succ f => cases b <;> simp [parseValue, stringify, skipWs, isWs]
+    | .num t, rest, fuel, hw, hr, hf => by
+      cases fuel with
+      | zero => simp [szV] at hf
+      | succ f =>
+        obtain ⟨hv, hall⟩ := hw
+        cases t with
+        | nil => exact absurd rfl (validNumber_ne_nil _ hv)
+        | cons c cs =>
+          have fc := digit_facts c (validNumber_head c cs hv)
+          obtain ⟨h1, h2⟩ := takeWhile_app isNumChar (c :: cs) rest hall hr
+          simp only [stringify, List.cons_append] at h1 h2 ⊢
+          simp only [parseValue, skipWs_cons c _ fc.1, fc.2.1, fc.2.2.1, fc.2.2.2.1, fc.2.2.2.2.1, fc.2.2.2.2.2.1, fc.2.2.2.2.2.2.1,
+            fc.2.2.2.2.2.2.2.2.2, Bool.false_eq_true, ↓reduceIte, h1, h2, hv]
+    | .str s, rest, fuel, hw, _, hf => by
+      cases fuel with
+      | zero => simp [szV] at hf
+      | succ f =>
+        simp only [stringify, quote, List.cons_append, List.append_assoc, List.singleton_append]
+        simp [parseValue, skipWs, isWs]
+        exact string_roundtrip s false rest _ hw (by have := quoteBody_length s false; simp; omega)
+    | .arr xs, rest, fuel, hw, _, hf => by
+      cases fuel with
+      | zero => simp [szV] at hf
+      | succ f =>
+        cases xs with
+        | nil => simp [parseValue, stringify, stringifyL, skipWs, isWs]
+        | cons v t =>
+          have hsz : szL (.cons v t) ≤ f := by simp [szV] at hf; omega
+          have hl := rtL (.cons v t) rest f hw hsz
+          simp only at hl
+          obtain ⟨c, cs, hc, hws, h5d, _⟩ := stringify_head v hw.1
+          have hstart : ∃ cs', stringifyL (.cons v t) ++ 0x5D :: rest = c :: cs' := by
+            rw [stringifyL_cons]; cases t <;> simp [hc]
+          obtain ⟨cs', hcs'⟩ := hstart
+          simp only [stringify, List.cons_append, List.append_assoc, List.singleton_append, List.nil_append]
+          rw [hcs'] at hl ⊢
+          simp [parseValue, skipWs_cons 0x5B (c :: cs') (by decide), skipWs_cons c cs' hws, h5d, hl]
+    | .obj o, rest, fuel, hw, _, hf => by
+      cases fuel with
+      | zero => simp [szV] at hf
+      | succ f =>
+        cases o with
+        | nil => simp [parseValue, stringify, stringifyO, skipWs, isWs]
+        | cons k v t =>
+          have hsz : szO (.cons k v t) ≤ f := by simp [szV] at hf; omega
+          have hl := rtO (.cons k v t) .nil rest f hw.1 (by simpa [keysO] using hw.2) hsz
+          simp only at hl
+          have hstart : ∃ cs', stringifyO (.cons k v t) ++ 0x7D :: rest = 0x22 :: cs' := by
+            rw [stringifyO_cons]; cases t <;> simp [quote]
+          obtain ⟨cs', hcs'⟩ := hstart
+          simp only [stringify, List.cons_append, List.append_assoc, List.singleton_append, List.nil_append]
+          rw [hcs'] at hl ⊢
+          simp [parseValue, skipWs_cons 0x7B (0x22 :: cs') (by decide), skipWs_cons 0x22 cs' (by decide), hl, appO]
+  theorem rtL : ∀ (xs : JL) (rest : List Nat) (fuel : Nat), wfL xs → szL xs ≤ fuel →
+      (match xs with | .nil => True | .cons _ _ => parseElems fuel (stringifyL xs ++ 0x5D :: rest) = some (xs, rest))
+    | .nil, _, _, _, _ => trivial
+    | .cons v t, rest, fuel, hw, hf => by
+      cases fuel with
+      | zero => simp [szL] at hf
+      | succ f =>
+        simp only
+        rw [stringifyL_cons]
+        cases t with
+        | nil =>
+          have hv := rtV v (0x5D :: rest) f hw.1 (restOk_cons _ _ (by decide)) (by simp [szL] at hf; omega)
+          simp only [parseElems, hv, skipWs_cons 0x5D _ (by decide)]
+        | cons v2 t2 =>
+          have hv := rtV v (0x2C :: (stringifyL (.cons v2 t2) ++ 0x5D :: rest)) f hw.1 (restOk_cons _ _ (by decide)) (by simp [szL] at hf; omega)
+          have ht := rtL (.cons v2 t2) rest f hw.2 (by simp [szL] at hf ⊢; omega)
+          simp only at ht
+          simp only [List.append_assoc, List.cons_append]
+          simp only [parseElems, hv, skipWs_cons 0x2C _ (by decide), ht, Option.map]
+  theorem rtO : ∀ (o : JO) (acc : JO) (rest : List Nat) (fuel : Nat), wfO o → (keysO acc ++ keysO o).Nodup → szO o ≤ fuel →
+      (match o with | .nil => True | .cons _ _ _ => parseMembers fuel (stringifyO o ++ 0x7D :: rest) acc = some (appO acc o, rest))
+    | .nil, _, _, _, _, _, _ => trivial
+    | .cons k v t, acc, rest, fuel, hw, hnd, hf => by
+      cases fuel with
+      | zero => simp [szO] at hf
+      | succ f =>
+        simp only
+        have hfresh : k ∉ keysO acc := by
+          simp only [keysO] at hnd
+          have := (List.nodup_append.mp hnd).2.2
+          intro hk; exact this k hk k (by simp) rfl
+        rw [stringifyO_cons]
+        cases t with
+        | nil =>
+          have hv := rtV v (0x7D :: rest) f hw.2.1 (restOk_cons _ _ (by decide)) (by simp [szO] at hf; omega)
+          have hq := parse_quote k (0x3A :: (stringify v ++ 0x7D :: rest)) hw.1
+          simp only [quote, List.cons_append, List.append_assoc, List.singleton_append, List.nil_append]
+          simp only [parseMembers, skipWs_cons 0x22 _ (by decide), hq, skipWs_cons 0x3A _ (by decide), hv, skipWs_cons 0x7D _ (by decide),
+            objSet_fresh acc k v hfresh]
+        | cons k2 v2 t2 =>
+          have hv := rtV v (0x2C :: (stringifyO (.cons k2 v2 t2) ++ 0x7D :: rest)) f hw.2.1 (restOk_cons _ _ (by decide)) (by simp [szO] at hf; omega)
+          have hq := parse_quote k (0x3A :: (stringify v ++ 0x2C :: (stringifyO (.cons k2 v2 t2) ++ 0x7D :: rest))) hw.1
+          have hnd2 : (keysO (appO acc (.cons k v .nil)) ++ keysO (.cons k2 v2 t2)).Nodup := by
+            rw [keysO_appO]; simpa [keysO, List.append_assoc] using hnd
+          have ht := rtO (.cons k2 v2 t2) (appO acc (.cons k v .nil)) rest f hw.2.2 hnd2 (by simp [szO] at hf ⊢; omega)
+          simp only at ht
+          rw [appO_assoc] at ht
+          simp only [quote, List.cons_append, List.append_assoc, List.singleton_append, List.nil_append]
+          simp only [parseMembers, skipWs_cons 0x22 _ (by decide), hq, skipWs_cons 0x3A _ (by decide), hv, skipWs_cons 0x2C _ (by decide),
+            objSet_fresh acc k v hfresh, ht]
+end
+
+
+mutual
+  theorem szV_le : ∀ (v : JV), wfV v → szV v ≤ (stringify v).length
+    | .null, _ => by simp [szV, stringify]
+    | .bool b, _ => by cases b <;> simp [szV, stringify]
+    | .num t, hw => by
+      have := validNumber_ne_nil t hw.1
+      cases t with
+      | nil => exact absurd rfl this
+      | cons c cs => simp [szV, stringify]
+    | .str s, _ => by simp [szV, stringify, quote]
+    | .arr xs, hw => by
+      have := szL_le xs hw
+      simp only [szV, stringify, List.length_cons, List.length_append, List.length_nil]
+      omega
+    | .obj o, hw => by
+      have := szO_le o hw.1
+      simp only [szV, stringify, List.length_cons, List.length_append, List.length_nil]
+      omega
+  theorem szL_le : ∀ (xs : JL), wfL xs → szL xs ≤ (stringifyL xs).length + 1
+    | .nil, _ => by simp [szL]
+    | .cons v t, hw => by
+      have h1 := szV_le v hw.1
+      have h2 := szL_le t hw.2
+      rw [stringifyL_cons]
+      cases t with
+      | nil => simp only [szL]; omega
+      | cons v2 t2 => simp only [szL, List.length_append, List.length_cons] at h2 ⊢; omega
+  theorem szO_le : ∀ (o : JO), wfO o → szO o ≤ (stringifyO o).length + 1
+    | .nil, _ => by simp [szO]
+    | .cons k v t, hw => by
+      have h1 := szV_le v hw.2.1
+      have h2 := szO_le t hw.2.2
+      rw [stringifyO_cons]
+      cases t with
+      | nil => simp only [szO, List.length_append, List.length_cons]; omega
+      | cons k2 v2 t2 => simp only [szO, List.length_append, List.length_cons] at h2 ⊢; omega
+end
+
+/-- THE WHOLE-VALUE ROUND TRIP: for every JSON value whose numbers are valid tokens, whose strings are sequences of
+    16-bit code units (any: quotes, controls, lone surrogates) and whose objects have distinct keys — at any depth and
+    width — parsing the serialised text returns the value -/
+theorem parse_stringify (v : JV) (h : wfV v) : parse (stringify v) = some v := by
+  have hsz := szV_le v h
+  have := rtV v [] ((stringify v).length + 1) h (by intro c r e; cases e) (by omega)
+  simp only [List.append_nil] at this
+  simp [parse, this, skipWs]
+
+
+-- the hypothesis is satisfiable by a value with every kind of content (and needed: duplicate keys merge)
+example : wfV (.obj (.cons [0x61] (.arr (.cons (.num [0x2D, 0x31, 0x2E, 0x35, 0x65, 0x33]) (.cons (.str [0x22, 0x5C, 0x0A, 0xD800, 0x41]) (.cons .null .nil)))) (.cons [] (.obj .nil) .nil))) := by
+  simp [wfV, wfL, wfO, keysO, validNumber, digits1, isDigit, isNumChar]
+example : (parse (stringify (.obj (.cons [0x61] .null (.cons [0x61] (.bool true) .nil))))).map stringify = some (stringify (.obj (.cons [0x61] (.bool true) .nil))) := by decide
+
 -- the examples: a value with every kind of character round-trips, and texts the grammar must reject
 example : (parse (stringify (.obj (.cons [0x61] (.arr (.cons (.num [0x2D, 0x31, 0x2E, 0x35, 0x65, 0x33]) (.cons (.str [0x22, 0x5C, 0x0A, 0xD800, 0x41]) (.cons .null .nil)))) .nil)))).map stringify
     = some (stringify (.obj (.cons [0x61] (.arr (.cons (.num [0x2D, 0x31, 0x2E, 0x35, 0x65, 0x33]) (.cons (.str [0x22, 0x5C, 0x0A, 0xD800, 0x41]) (.cons .null .nil)))) .nil))) := by decide
